@@ -53,7 +53,10 @@ struct Grid {
     int qn() const { return 2 * g + 3; }  // -2 .. 2g  (box [0, g-1] extended by one unit)
     int ncell() const { return qn() * qn(); }
     int nq() const { return ncell() * ndisp; }
-    bool wide() const { return fam != 0; }
+    bool wide() const { return fam == 1 || fam == 2; }
+    bool scaled() const { return fam >= 3; }  // tiny_magnitude / huge_magnitude: unit is a power of two, all arithmetic stays exact
+    const char* family_tag() const { return fam == 0 ? "unit_grid" : wide() ? "wide_mantissa" : fam == 5 ? "huge_magnitude" : "tiny_magnitude"; }
+    std::string subprefix() const { return fam == 0 ? std::string() : wide() ? fmt("wide_mantissa.u%d.", fam) : fam == 3 ? "tiny_magnitude.2^-50." : fam == 4 ? "tiny_magnitude.2^-40." : "huge_magnitude.2^40."; }
     int hx(int qi) const { return qlo() + (qi / ndisp) / qn(); }
     int hy(int qi) const { return qlo() + (qi / ndisp) % qn(); }
     int dx(int qi) const { return ndisp == 1 ? 0 : (qi % ndisp) / 3 - 1; }
@@ -61,10 +64,13 @@ struct Grid {
     eg::P q(int qi) const { return eg::P{hx(qi) * W + dx(qi), hy(qi) * W + dy(qi)}; }
     Vec2 qv(int qi) const { return Vec2{hx(qi) * (unit * 0.5) + dx(qi) * delta, hy(qi) * (unit * 0.5) + dy(qi) * delta}; }
     std::string qjson(int qi) const {
+        if (scaled()) return fmt("[\"%g x %s = %.17g\",\"%g x %s = %.17g\"]", hx(qi) * 0.5, family() + 15, qv(qi).x, hy(qi) * 0.5, family() + 15, qv(qi).y);
         if (!wide()) return "[" + jnum(hx(qi) * 0.5) + "," + jnum(hy(qi) * 0.5) + "]";
         return fmt("[\"%d/2 u%+d*2^-28 = %.17g\",\"%d/2 u%+d*2^-28 = %.17g\"]", hx(qi), dx(qi), qv(qi).x, hy(qi), dy(qi), qv(qi).y);
     }
-    const char* family() const { return fam == 0 ? "unit_grid" : fam == 1 ? "wide_mantissa u=(2^27+1)/2^10" : "wide_mantissa u=(2^26+5)/2^8"; }
+    const char* family() const {
+        return fam == 0 ? "unit_grid" : fam == 1 ? "wide_mantissa u=(2^27+1)/2^10" : fam == 2 ? "wide_mantissa u=(2^26+5)/2^8" : fam == 3 ? "tiny_magnitude 2^-50" : fam == 4 ? "tiny_magnitude 2^-40" : "huge_magnitude 2^40";
+    }
 };
 static Grid make_grid(int g, int fam) {
     Grid G;
@@ -72,7 +78,13 @@ static Grid make_grid(int g, int fam) {
     G.fam = fam;
     if (fam == 1) { G.unit = 134217729.0 / 1024.0; G.W = 134217729LL << 17; }   // u/2 = M / 2^11 = M * 2^17 * 2^-28
     if (fam == 2) { G.unit = 67108869.0 / 256.0; G.W = 67108869LL << 19; }      // u/2 = M / 2^9  = M * 2^19 * 2^-28
-    if (fam) { G.ndisp = 9; G.delta = ldexp(1.0, -28); }
+    if (fam == 1 || fam == 2) { G.ndisp = 9; G.delta = ldexp(1.0, -28); }
+    // tiny_magnitude / huge_magnitude: the unit grid multiplied by a power of two.  Every value and every product
+    // is exact, the oracle stays in half grid units (scale by 2^50 / 2^40 / 2^-40 is implicit), and every half-grid
+    // query point is a lattice neighbour (within a few lattice steps) of every vertex, the last one included.
+    if (fam == 3) G.unit = ldexp(1.0, -50);
+    if (fam == 4) G.unit = ldexp(1.0, -40);
+    if (fam == 5) G.unit = ldexp(1.0, 40);
     return G;
 }
 static int64_t ipow(int64_t b, int e) { int64_t r = 1; while (e-- > 0) r *= b; return r; }
@@ -218,6 +230,13 @@ struct Acc {  // per-chunk counters, flushed once
     }
 };
 
+// A defect that affects a whole family produces 10^7..10^8 failing cases; only the first 200 per (family, check
+// site) and process are rendered (the engine caps what is emitted anyway), the rest are counted.
+static bool detail_budget(int fam, int site) {
+    static int64_t used[8][4];
+    return ++used[fam & 7][site & 3] <= 200;
+}
+static void count_only(const char* key) { R->count("violations_total"); R->count(key); }
 static std::string list_replay(const Grid& G, int n, int64_t idx) { return fmt("g=%d fam=%d n=%d idx=%lld", G.g, G.fam, n, (long long)idx); }
 
 // one (list, query) point test; returns false on mismatch
@@ -245,8 +264,9 @@ static bool point_case(const Grid& G, VList& L, Polygon& poly, int n, int64_t id
     if (w < 0) a.wind_neg++;
     if (verbose) fprintf(stderr, "list %s query %s: on_boundary=%d winding=%d expected=%d contain()=%d\n", L.json().c_str(), G.qjson(qi).c_str(), onb, w, expect, got);
     if (got == expect) return true;
+    if (!detail_budget(G.fam, 0)) { count_only(expect ? "viol:point/contain-false-negative" : "viol:point/contain-false-positive"); return false; }
     R->violation("point", expect ? "contain-false-negative" : "contain-false-positive",
-                 {{"n", jint(n)}, {"on_boundary", jbool(onb)}, {"winding", jint(w)}, {"on_vertex_row", jbool(row)}, {"self_intersecting_or_degenerate", jbool(ns)}, {"family", jstr(G.wide() ? "wide_mantissa" : "unit_grid")}},
+                 {{"n", jint(n)}, {"on_boundary", jbool(onb)}, {"winding", jint(w)}, {"on_vertex_row", jbool(row)}, {"self_intersecting_or_degenerate", jbool(ns)}, {"family", jstr(G.family_tag())}},
                  jobj({{"points", L.json()}, {"coordinates_in_units_of", jstr(G.family())}, {"query", G.qjson(qi)}, {"grid", jint(G.g)}}),
                  fmt("Polygon::contain returned %d; exact oracle: on_boundary=%d winding=%d => %d", got, onb, w, expect), "sub=point " + list_replay(G, n, idx) + fmt(" qi=%d", qi));
     return false;
@@ -261,7 +281,7 @@ static void measure_case(const Grid& G, VList& L, Polygon& poly, int n, int64_t 
     eg::i128 a2 = 0;
     if (n >= 3)
         for (int i = 0; i < n; i++) { int j = (i + 1) % n; a2 += (eg::i128)L.vx[i] * L.vy[j] - (eg::i128)L.vx[j] * L.vy[i]; }  // 2 * area in grid units
-    double exp_signed = G.wide() ? (double)((long double)(int64_t)a2 * 0.5L * (long double)G.unit * (long double)G.unit) : (double)(int64_t)a2 / 2.0;
+    double exp_signed = G.wide() ? (double)((long double)(int64_t)a2 * 0.5L * (long double)G.unit * (long double)G.unit) : (double)(int64_t)a2 / 2.0 * G.unit * G.unit;  // power-of-two (or 1) unit: exact
     double mult = (double)rv.own_count;
     double exp_area = fabs(exp_signed) * mult;
     long double per = 0;
@@ -282,7 +302,7 @@ static void measure_case(const Grid& G, VList& L, Polygon& poly, int n, int64_t 
     if (verbose)
         fprintf(stderr, "list %s repetition {%s}: signed_area %.17g (expected %.17g) area %.17g (expected %.17g) perimeter %.17g (expected %.17Lg)\n", L.json().c_str(), rv.name.c_str(), got_signed,
                 exp_signed, got_area, exp_area, got_per, exp_per);
-    long double tol = 1e-12L * std::max<long double>(1.0L, exp_per);
+    long double tol = 1e-12L * std::max<long double>(G.fam ? (long double)G.unit : 1.0L, exp_per);
     bool ok_s = got_signed == exp_signed, ok_a = got_area == exp_area, ok_p = fabsl((long double)got_per - exp_per) <= tol;
     if (G.wide()) {
         double atol = 1e-12 * (G.g * G.unit) * (G.g * G.unit);
@@ -290,6 +310,12 @@ static void measure_case(const Grid& G, VList& L, Polygon& poly, int n, int64_t 
         ok_a = fabs(got_area - exp_area) <= atol * std::max(1.0, mult);
     }
     if (ok_s && ok_a && ok_p) return;
+    if (!detail_budget(G.fam, 1)) {
+        if (!ok_s) count_only("viol:measure/signed_area");
+        if (!ok_a) count_only("viol:measure/area");
+        if (!ok_p) count_only("viol:measure/perimeter");
+        return;
+    }
     JFields tags = {{"n", jint(n)}, {"kind", jstr(rv.kind)}, {"zero_count", jbool(rv.zero_count)}, {"copies", juint(rv.own_count)}, {"below_three_vertices", jbool(n < 3)}};
     std::string cs = jobj({{"points", L.json()}, {"coordinates_in_units_of", jstr(G.family())}, {"repetition", jstr(rv.name)}, {"grid", jint(G.g)}});
     std::string rp = "sub=measure " + list_replay(G, n, idx) + fmt(" rep=%d", ri);
@@ -329,16 +355,20 @@ static void run_lists(int g, int n, int fam = 0) {
         for (int64_t idx = c * chunk; idx < std::min(total, (c + 1) * chunk); idx++) list_case(G, n, idx, a, -1, -1, false);
         a.flush();
     };
-    std::string sub = fam ? fmt("wide_mantissa.u%d.lists.g%d.n%d", fam, g, n) : fmt("lists.g%d.n%d", g, n);
-    if (fam) chunk = 256, nchunks = (total + chunk - 1) / chunk;
+    std::string sub = G.subprefix() + fmt("lists.g%d.n%d", g, n);
+    if (G.wide()) chunk = 256, nchunks = (total + chunk - 1) / chunk;
     bool ok = parallel_for(*R, nchunks, body, [&](int64_t c) { return jobj({{"family", jstr(G.family())}, {"grid", jint(g)}, {"n", jint(n)}, {"first_list_index", jint(c * chunk)}, {"lists_in_chunk", jint(chunk)}}); },
                            [&](int64_t c) { return "sub=chunk " + list_replay(G, n, c * chunk) + fmt(" count=%lld", (long long)chunk); }, PFOptions{120, sub, true});
     if (n >= 3) {
         VList L;
         L.decode(G, n, total / 3 + 5);
-        R->sample(fam ? "wide_mantissa" : "point", jobj({{"points", L.json()}, {"coordinates_in_units_of", jstr(G.family())}, {"queries", jstr(fmt("all %d points of the half-integer grid [-1,%d]^2%s", G.ncell(), g, fam ? " x 9 displacements (dx,dy)*2^-28" : ""))}, {"repetitions", jint((int64_t)REPS.size())}}));
+        R->sample(fam ? G.family_tag() : "point", jobj({{"points", L.json()}, {"coordinates_in_units_of", jstr(G.family())}, {"queries", jstr(fmt("all %d points of the half-integer grid [-1,%d]^2%s", G.ncell(), g, G.wide() ? " x 9 displacements (dx,dy)*2^-28" : ""))}, {"repetitions", jint((int64_t)REPS.size())}}));
     }
-    if (fam)
+    if (G.scaled())
+        R->bound(sub, fmt("family %s (unit grid x %s, exact arithmetic, exact integer oracle): all %d^%d vertex lists of length %d on the %dx%d grid x (%d query points = the half-grid lattice neighbours of every vertex, last vertex included, over [-1,%d]^2 + %d repetition variants x {signed_area, area, perimeter})",
+                          G.family_tag(), G.family() + 15, G.nv(), n, n, g, g, G.nq(), g, (int)REPS.size()),
+                 ok, total * (G.nq() + (int64_t)REPS.size()));
+    else if (fam)
         R->bound(sub, fmt("family wide_mantissa, coordinates = integer grid x %s: all %d^%d vertex lists of length %d on the %dx%d grid (both orientations, every slope with |dx|,|dy| <= %d) x (%d query points: half-grid points [-1,%d]^2 x u, i.e. edge interiors, vertices and off-edge points, each also displaced by (dx,dy)*2^-28 with dx,dy in {-1,0,1}; + %d repetition variants x {signed_area, area to 1e-12 of extent^2, perimeter to 1e-12})",
                           G.family(), G.nv(), n, n, g, g, g - 1, G.nq(), g, (int)REPS.size()),
                  ok, total * (G.nq() + (int64_t)REPS.size()));
@@ -360,7 +390,7 @@ struct GroupSpace {
     int nmax, maxlen;
     std::vector<GList> lists;
     GroupSpace(int g, int nmax_, int maxlen_, int fam = 0) : G(make_grid(g, fam)), nmax(nmax_), maxlen(maxlen_) {
-        if (fam) { G.ndisp = 1; }  // group queries on the wide_mantissa grid use the undisplaced half-grid points
+        if (G.wide()) { G.ndisp = 1; }  // group queries on the wide_mantissa grid use the undisplaced half-grid points
         int64_t total = 0;
         for (int n = 0; n <= nmax; n++) total += ipow(G.nv(), n);
         lists.resize(total);
@@ -387,7 +417,7 @@ struct GroupSpace {
         }
     }
     int64_t npl() const { int64_t t = 0; for (int l = 0; l <= maxlen; l++) t += ipow(G.nq(), l); return t; }
-    std::string desc() const { return std::string(G.wide() ? std::string("[family wide_mantissa, coordinates x ") + G.family() + "] " : std::string()) + fmt("lists of length <= %d on the %dx%d grid (%zu lists), point lists of length <= %d over the %d-point half-integer grid [-1,%d]^2 (%lld point lists)", nmax, G.g, G.g, lists.size(), maxlen, G.nq(), G.g, (long long)npl()); }
+    std::string desc() const { return std::string(G.fam ? std::string("[family ") + G.family_tag() + ", coordinates x " + G.family() + "] " : std::string()) + fmt("lists of length <= %d on the %dx%d grid (%zu lists), point lists of length <= %d over the %d-point half-integer grid [-1,%d]^2 (%lld point lists)", nmax, G.g, G.g, lists.size(), maxlen, G.nq(), G.g, (long long)npl()); }
 };
 struct GAcc {
     int64_t cases = 0, nontrivial = 0, empty_group = 0, empty_points = 0, with_rep = 0;
@@ -428,7 +458,12 @@ static void single_case(GroupSpace& S, int a, int ri, const int* qi, int len, GA
     if (ri) acc.with_rep++;
     if (verbose) fprintf(stderr, "polygon %s repetition {%s} points %s: contain_all=%d (expected %d) contain_any=%d (expected %d)\n", gl.L.json().c_str(), REPS[ri].name.c_str(), pts_json(S.G, qi, len).c_str(), gall, eall, gany, eany);
     if (gall == eall && gany == eany) return;
-    JFields tags = {{"n", jint(gl.L.n)}, {"points", jint(len)}, {"kind", jstr(REPS[ri].kind)}, {"zero_count", jbool(REPS[ri].zero_count)}, {"family", jstr(S.G.wide() ? "wide_mantissa" : "unit_grid")}};
+    if (!detail_budget(S.G.fam, 2)) {
+        if (gall != eall) count_only("viol:group.single/contain_all");
+        if (gany != eany) count_only("viol:group.single/contain_any");
+        return;
+    }
+    JFields tags = {{"n", jint(gl.L.n)}, {"points", jint(len)}, {"kind", jstr(REPS[ri].kind)}, {"zero_count", jbool(REPS[ri].zero_count)}, {"family", jstr(S.G.family_tag())}};
     std::string cs = jobj({{"coordinates_in_units_of", jstr(S.G.family())}, {"polygon", gl.L.json()}, {"repetition", jstr(REPS[ri].name)}, {"points", pts_json(S.G, qi, len)}, {"grid", jint(S.G.g)}});
     std::string rp = fmt("sub=group.single g=%d fam=%d nmax=%d a=%d rep=%d len=%d p=%d q=%d", S.G.g, S.G.fam, S.nmax, a, ri, len, len > 0 ? qi[0] : 0, len > 1 ? qi[1] : 0);
     if (gall != eall) R->violation("group.single", "contain_all", tags, cs, fmt("contain_all = %d, conjunction of contain() over the points = %d", gall, eall), rp);
@@ -467,10 +502,16 @@ static void multi_case(GroupSpace& S, int a, int b, const int* qi, int len, GAcc
                 b >= 0 ? S.lists[b].L.json().c_str() : "-", pts_json(S.G, qi, len).c_str(), rb[0], rb[1], e[0], e[1], gall, eall, gany, eany);
     }
     if (ins_ok && gall == eall && gany == eany) return;
+    if (!detail_budget(S.G.fam, 3)) {
+        if (!ins_ok) count_only("viol:group.multi/inside");
+        if (gall != eall) count_only("viol:group.multi/all_inside");
+        if (gany != eany) count_only("viol:group.multi/any_inside");
+        return;
+    }
     std::vector<std::string> pj;
     if (a >= 0) pj.push_back(S.lists[a].L.json());
     if (b >= 0) pj.push_back(S.lists[b].L.json());
-    JFields tags = {{"polygons", jint(np)}, {"points", jint(len)}, {"family", jstr(S.G.wide() ? "wide_mantissa" : "unit_grid")}};
+    JFields tags = {{"polygons", jint(np)}, {"points", jint(len)}, {"family", jstr(S.G.family_tag())}};
     std::string cs = jobj({{"coordinates_in_units_of", jstr(S.G.family())}, {"polygons", jarr(pj)}, {"points", pts_json(S.G, qi, len)}, {"grid", jint(S.G.g)}});
     std::string rp = fmt("sub=group.multi g=%d fam=%d nmax=%d a=%d b=%d len=%d p=%d q=%d", S.G.g, S.G.fam, S.nmax, a, b, len, len > 0 ? qi[0] : 0, len > 1 ? qi[1] : 0);
     if (!ins_ok) R->violation("group.multi", "inside", tags, cs, fmt("inside() wrote [%02x %02x %02x %02x]; per-point disjunction over the group = [%d %d] for the first %d entries, later entries must stay untouched (aa)", rb[0], rb[1], rb[2], rb[3], e[0], e[1], len), rp);
@@ -487,7 +528,7 @@ static void for_point_lists(const GroupSpace& S, int maxlen, F f) {
 static void run_groups(int g, int nmax, int maxlen, int fam = 0) {
     GroupSpace S(g, nmax, maxlen, fam);
     int NL = (int)S.lists.size();
-    std::string tag = fmt("%sg%d.n%d.len%d", fam ? fmt("wide_mantissa.u%d.", fam).c_str() : "", g, nmax, maxlen);
+    std::string tag = S.G.subprefix() + fmt("g%d.n%d.len%d", g, nmax, maxlen);
     // --- single polygon: contain_all / contain_any; repetition variants with point lists of length <= 1
     {
         auto body = [&](int64_t a) {
@@ -594,6 +635,13 @@ int main(int argc, char** argv) {
     for (int fam = 1; fam <= 2; fam++) run_groups(2, 3, 2, fam);
     run_groups(3, 3, 1, 1);
     lap("wide_mantissa");
+    // families tiny_magnitude (x 2^-50, x 2^-40) and huge_magnitude (x 2^40): exactly representable coordinates far
+    // from magnitude 1; query points are lattice neighbours of the vertices
+    for (int fam = 3; fam <= 5; fam++) for (int n = 0; n <= 4; n++) run_lists(4, n, fam);
+    if (T) run_lists(4, 5, 3);
+    for (int fam = 3; fam <= 5; fam++) run_groups(2, 3, 2, fam);
+    run_groups(3, 3, 1, 3);
+    lap("tiny/huge magnitude");
     if (T) { for (int n = 0; n <= 5; n++) run_lists(5, n); lap("lists g=5"); }
     return run.finish();
 }
